@@ -226,6 +226,8 @@ func (self *Interpreter) infixExpression(node ast.AnalyzedInfixExpression) (*val
 	return res, i
 }
 
+// The left operand is read when it is evaluated: what the evaluation of the right operand does to the variable
+// (or element) it came from does not change it any more.
 func (self *Interpreter) infixHelper(lhs ast.AnalyzedExpression, rhs ast.AnalyzedExpression, operator pAst.InfixOperator) (res *value.Value, lhsAddr *value.Value, i *value.Interrupt) {
 	switch operator {
 	case pAst.EqualInfixOperator:
@@ -233,12 +235,13 @@ func (self *Interpreter) infixHelper(lhs ast.AnalyzedExpression, rhs ast.Analyze
 		if i != nil {
 			return nil, nil, i
 		}
+		lhsNow := *lhs
 		rhs, i := self.expression(rhs)
 		if i != nil {
 			return nil, nil, i
 		}
 
-		res, i := (*lhs).IsEqual(*rhs)
+		res, i := lhsNow.IsEqual(*rhs)
 		if i != nil {
 			return nil, nil, i
 		}
@@ -248,12 +251,13 @@ func (self *Interpreter) infixHelper(lhs ast.AnalyzedExpression, rhs ast.Analyze
 		if i != nil {
 			return nil, nil, i
 		}
+		lhsNow := *lhs
 		rhs, i := self.expression(rhs)
 		if i != nil {
 			return nil, nil, i
 		}
 
-		res, i := (*lhs).IsEqual(*rhs)
+		res, i := lhsNow.IsEqual(*rhs)
 		if i != nil {
 			return nil, nil, i
 		}
@@ -268,12 +272,13 @@ func (self *Interpreter) infixHelper(lhs ast.AnalyzedExpression, rhs ast.Analyze
 		if i != nil {
 			return nil, nil, i
 		}
+		lhsNow := *lhsVal
 		rhsVal, i := self.expression(rhs)
 		if i != nil {
 			return nil, nil, i
 		}
 
-		lhsInt := (*lhsVal).(value.ValueInt)
+		lhsInt := lhsNow.(value.ValueInt)
 		rhsInt := (*rhsVal).(value.ValueInt)
 
 		// TODO: add checked operations + runtime crashes
@@ -348,12 +353,13 @@ func (self *Interpreter) infixHelper(lhs ast.AnalyzedExpression, rhs ast.Analyze
 		if i != nil {
 			return nil, nil, i
 		}
+		lhsNow := *lhsVal
 		rhsVal, i := self.expression(rhs)
 		if i != nil {
 			return nil, nil, i
 		}
 
-		lhsFloat := (*lhsVal).(value.ValueFloat)
+		lhsFloat := lhsNow.(value.ValueFloat)
 		rhsFloat := (*rhsVal).(value.ValueFloat)
 
 		// TODO: add checked operations + runtime crashes
@@ -397,6 +403,7 @@ func (self *Interpreter) infixHelper(lhs ast.AnalyzedExpression, rhs ast.Analyze
 			if i != nil {
 				return nil, nil, i
 			}
+			lhsBool = (*lhsTemp).(value.ValueBool).Inner
 			rhsTemp, i := self.expression(rhs)
 			if i != nil {
 				return nil, nil, i
@@ -404,7 +411,6 @@ func (self *Interpreter) infixHelper(lhs ast.AnalyzedExpression, rhs ast.Analyze
 			lhsVal = lhsTemp
 			rhsVal = rhsTemp
 
-			lhsBool = (*lhsVal).(value.ValueBool).Inner
 			rhsBool = (*rhsVal).(value.ValueBool).Inner
 		}
 
@@ -454,6 +460,7 @@ func (self *Interpreter) infixHelper(lhs ast.AnalyzedExpression, rhs ast.Analyze
 		if i != nil {
 			return nil, nil, i
 		}
+		lhsNow := (*lhsTemp).(value.ValueString).Inner
 		rhsTemp, i := self.expression(rhs)
 		if i != nil {
 			return nil, nil, i
@@ -461,7 +468,7 @@ func (self *Interpreter) infixHelper(lhs ast.AnalyzedExpression, rhs ast.Analyze
 
 		switch operator {
 		case pAst.PlusInfixOperator:
-			strRes := (*lhsTemp).(value.ValueString).Inner + (*rhsTemp).(value.ValueString).Inner
+			strRes := lhsNow + (*rhsTemp).(value.ValueString).Inner
 			return value.NewValueString(strRes), lhsTemp, nil
 		default:
 			panic("A new operator kind was introduced without updating this code")
